@@ -108,7 +108,8 @@ func c10Datagram(sh string, i int) []byte {
 var c10MustDiscard = map[string]bool{"overdeclared": true, "overdeclared-big": true, "cut-startline": true, "cut-header": true, "cut-blankline": true, "cut-body": true,
 	"crlf-overdeclared": true, "crlf-cut-blankline": true}
 
-var c10Branch = regexp.MustCompile(`branch=z9hG4bK[0-9a-f]{12}`)
+// the branch of the topmost Via is the proxy's own and fresh per relay (whatever its length or alphabet)
+var c10Branch = regexp.MustCompile(`branch=z9hG4bK[^;,\s]*`)
 
 func c10Mask(b []byte) string {
 	loc := c10Branch.FindIndex(b)
